@@ -2,14 +2,78 @@
 from __future__ import annotations
 
 import ast
-from typing import Iterator, List, Optional, Tuple
+from typing import Dict, Iterator, List, Optional, Tuple
+
+
+# ------------------------------------------------------------------ aliases
+# A local that is bound exactly once and is the same object as self.<attr> (``x = self.a`` or ``self.a = x`` with a
+# single store of self.a in the function) is written as ('self', '<attr>') in access chains, so that
+# ``fut = loop.create_future(); self.response_future = fut; fut.set_exception(..)`` reads like the unaliased form.
+_OWNER: Dict[int, object] = {}
+_ALIASES: Dict[int, Dict[str, Tuple[str, ...]]] = {}
+
+
+def register_functions(functions) -> None:
+    _OWNER.clear()
+    _ALIASES.clear()
+    for fn in functions:
+        if getattr(fn, "is_lambda", False):
+            continue
+        for n in walk_no_lambda(fn.node):
+            if isinstance(n, ast.Name):
+                _OWNER[id(n)] = fn
+
+
+def alias_map(fn) -> Dict[str, Tuple[str, ...]]:
+    key = id(fn.node)
+    if key in _ALIASES:
+        return _ALIASES[key]
+    binds: Dict[str, int] = {}
+    a = fn.node.args
+    params = {x.arg for x in a.posonlyargs + a.args + a.kwonlyargs}
+    for p_ in params:
+        binds[p_] = 1
+    attr_stores: Dict[str, int] = {}
+    cands: List[Tuple[str, str]] = []
+    for n in walk_no_lambda(fn.node):
+        if isinstance(n, ast.Name) and isinstance(n.ctx, (ast.Store, ast.Del)):
+            binds[n.id] = binds.get(n.id, 0) + 1
+        elif isinstance(n, ast.ExceptHandler) and n.name:
+            binds[n.name] = binds.get(n.name, 0) + 2
+        if isinstance(n, (ast.Assign, ast.AnnAssign)) and n.value is not None:
+            tgts = n.targets if isinstance(n, ast.Assign) else [n.target]
+            for t in tgts:
+                if isinstance(t, ast.Attribute) and isinstance(t.value, ast.Name) and t.value.id == "self":
+                    attr_stores[t.attr] = attr_stores.get(t.attr, 0) + 1
+                    if isinstance(n.value, ast.Name) and len(tgts) == 1:
+                        cands.append((n.value.id, t.attr))
+                elif isinstance(t, ast.Name) and len(tgts) == 1 and isinstance(n.value, ast.Attribute) \
+                        and isinstance(n.value.value, ast.Name) and n.value.value.id == "self":
+                    cands.append((t.id, n.value.attr))
+        elif isinstance(n, ast.AugAssign) and isinstance(n.target, ast.Attribute) and isinstance(n.target.value, ast.Name) \
+                and n.target.value.id == "self":
+            attr_stores[n.target.attr] = attr_stores.get(n.target.attr, 0) + 2
+    out: Dict[str, Tuple[str, ...]] = {}
+    for name, attr in cands:
+        if name in ("self", "cls") or binds.get(name, 0) != 1 or attr_stores.get(attr, 0) > 1:
+            continue
+        if sum(1 for c in cands if c[0] == name) != 1:
+            continue
+        out[name] = ("self", attr)
+    _ALIASES[key] = out
+    return out
 
 
 def chain(e: ast.AST) -> Optional[Tuple[str, ...]]:
     """self.response_future.set_result -> ('self', 'response_future', 'set_result');
     calls in the chain are written with '()' : asyncio.get_running_loop().call_later ->
-    ('asyncio', 'get_running_loop()', 'call_later')."""
+    ('asyncio', 'get_running_loop()', 'call_later').  Locals that alias self.<attr> are canonicalised."""
     if isinstance(e, ast.Name):
+        fn = _OWNER.get(id(e))
+        if fn is not None:
+            al = alias_map(fn).get(e.id)
+            if al is not None:
+                return al
         return (e.id,)
     if isinstance(e, ast.Attribute):
         b = chain(e.value)
@@ -89,3 +153,47 @@ def const_true(e: Optional[ast.expr]) -> bool:
 
 def const_false(e: Optional[ast.expr]) -> bool:
     return isinstance(e, ast.Constant) and e.value is False
+
+
+def single_assignments(fn_node: ast.AST) -> Dict[str, ast.expr]:
+    """Locals bound exactly once by a plain assignment: name -> value expression."""
+    count: Dict[str, int] = {}
+    value: Dict[str, ast.expr] = {}
+    for n in walk_no_lambda(fn_node):
+        if isinstance(n, ast.Name) and isinstance(n.ctx, (ast.Store, ast.Del)):
+            count[n.id] = count.get(n.id, 0) + 1
+        if isinstance(n, ast.Assign) and len(n.targets) == 1 and isinstance(n.targets[0], ast.Name):
+            value[n.targets[0].id] = n.value
+        elif isinstance(n, ast.AnnAssign) and isinstance(n.target, ast.Name) and n.value is not None:
+            value[n.target.id] = n.value
+    args = getattr(fn_node, "args", None)
+    params = {x.arg for x in (args.posonlyargs + args.args + args.kwonlyargs)} if args is not None else set()
+    return {k: v for k, v in value.items() if count.get(k, 0) == 1 and k not in params}
+
+
+def alternatives(e: Optional[ast.expr], local: Optional[Dict[str, ast.expr]] = None, depth: int = 0) -> List[ast.expr]:
+    """The expressions a value may come from: both arms of ``a if c else b``, the operands of ``a or b``,
+    and the defining expression of a local that is bound once."""
+    if e is None or depth > 6:
+        return [] if e is None else [e]
+    if isinstance(e, ast.IfExp):
+        return alternatives(e.body, local, depth + 1) + alternatives(e.orelse, local, depth + 1)
+    if isinstance(e, ast.BoolOp):
+        out: List[ast.expr] = []
+        for v in e.values:
+            out.extend(alternatives(v, local, depth + 1))
+        return out
+    if isinstance(e, ast.Name) and local and e.id in local:
+        return alternatives(local[e.id], local, depth + 1)
+    if isinstance(e, ast.Await):
+        return alternatives(e.value, local, depth + 1)
+    return [e]
+
+
+def returned_values(fn_node: ast.AST) -> List[ast.expr]:
+    local = single_assignments(fn_node)
+    out: List[ast.expr] = []
+    for n in walk_no_lambda(fn_node):
+        if isinstance(n, ast.Return) and n.value is not None:
+            out.extend(alternatives(n.value, local))
+    return out
